@@ -254,6 +254,12 @@ func (r *Recorder) Report(t Fataler, v Verdict, c *Case) bool {
 		r.Inconclusive()
 		return true
 	}
+	if strings.HasPrefix(v.Fingerprint, "harness|") {
+		// a defect of the machinery itself is an infrastructure error (exit 2), never a violation
+		r.Flush()
+		t.Fatalf("HARNESS ERROR [%s]: %s", v.Fingerprint, v.What)
+		return false
+	}
 	if r.IsKnownOpen(v.Fingerprint) {
 		r.mu.Lock()
 		r.ExclKnown[v.Fingerprint]++
